@@ -100,6 +100,11 @@ def cases(rng, n):
                     {"self": {"t": "obj", "cls": "msmart.lan._LanProtocolV3", "id": 1, "fields": {}},
                      "packet_id": {"t": "int", "v": rng.randrange(65536)}, "data": jb(bytes(rng.randrange(256) for _ in range(rng.choice([0, 1, 64]))))}))
         out.append(("msmart.lan._Packet.decode", {"data": jb(bytes([0x5a, 0x5a] * rng.choice([0, 1, 1]) + [rng.randrange(256) for _ in range(rng.choice([0, 3, 4, 8, 60]))]))}))
+        # string building / hashing over concrete strings (C19); AES / strxor are uninterpreted and not cross-checked
+        word = lambda: "".join(rng.choice("abcXYZ019_+@.") for _ in range(rng.choice([0, 1, 5, 12])))
+        out.append(("msmart.cloud.NetHomePlusCloud._Security.encrypt_password",
+                    {"self": {"t": "obj", "cls": "msmart.cloud.NetHomePlusCloud._Security", "id": 1, "fields": {}},
+                     "login_id": {"t": "str", "v": word()}, "password": {"t": "str", "v": word() + rng.choice(["", "", "\u00e9"])}}))
     return out
 
 
@@ -268,10 +273,14 @@ def main(argv=None):
         return 3
     native = json.load(open(fout))
     mine = run_pyvc(cs_)
-    bad = skipped = 0
+    bad = skipped = uninterp = 0
     for (target, inputs), a_, b_ in zip(cs_, mine, native):
         if "unsupported" in a_:
             skipped += 1
+            continue
+        if "<symbolic>" in json.dumps(a_) and "raises" not in b_:
+            # the result depends on an uninterpreted library function (AES, strxor, ...): not comparable, only the outcome class is
+            uninterp += 1
             continue
         if a_.get("raises") == "error":          # struct.error is named `error` natively
             a_["raises"] = "error"
@@ -280,7 +289,7 @@ def main(argv=None):
             bad += 1
             if bad <= 8:
                 print(f"XCHECK-MISMATCH {target}\n   input  {json.dumps(inputs)[:300]}\n   pyvc   {json.dumps(a_)[:400]}\n   native {json.dumps(b_)[:400]}")
-    print(f"xcheck: {len(cs_)} concrete executions, {skipped} outside the subset, {bad} disagreements, seed={seed}, {time.time() - t0:.1f}s")
+    print(f"xcheck: {len(cs_)} concrete executions, {skipped} outside the subset, {uninterp} with uninterpreted results, {bad} disagreements, seed={seed}, {time.time() - t0:.1f}s")
     for f in (fin, fout, fprog):
         try:
             os.remove(f)
